@@ -643,6 +643,17 @@ fn pick_arg(rng: &mut Rng, n: usize) -> usize {
 }
 
 fn plain_bitvector(em: &mut Emit, rng: &mut Rng, bits: &[bool], exhaustive: bool, nentries: usize) {
+    // a panic outside a recorded call (while building, enabling the supports, counting) is reported as a case of its
+    // own instead of ending the run
+    let r = catch(|| plain_bitvector_inner(em, rng, bits, exhaustive, nentries));
+    if let Res::Panic(k, msg) = r {
+        let words = to_words(bits);
+        em.out.case("crash", format!("CCrash (SBits {} {}) {}", bits.len(), nlist(&words), k),
+            format!("{{\"type\":\"BitVector\",\"len\":{},\"words\":{:?},\"panic\":{:?}}}", bits.len(), words, msg), true);
+    }
+}
+
+fn plain_bitvector_inner(em: &mut Emit, rng: &mut Rng, bits: &[bool], exhaustive: bool, nentries: usize) {
     // built from a bool iterator, or from a raw vector with a history (a few more set bits, resized down with filler
     // false; an integer of all ones pushed and popped again)
     let mut bv: BitVector = match bits.len() % 3 {
